@@ -276,6 +276,7 @@ func removeDuplicateHashes(hashes []bitcoin.Hash32) []bitcoin.Hash32 {
 			continue
 		}
 		result = append(result, hash)
+		previousHash = hash
 	}
 
 	return result
